@@ -33,7 +33,7 @@ type cmPoint struct {
 }
 
 func (p cmPoint) env() map[string]interface{} {
-	return map[string]interface{}{"host": p.host, "region": p.region, "value": p.value}
+	return map[string]interface{}{"host": p.host, "region": p.region, "value": p.value, "flag": p.value > 5}
 }
 
 var cmNow = time.Date(2000, 1, 1, 12, 0, 0, 0, time.UTC)
@@ -120,6 +120,9 @@ func cmNonTimeAtoms() []cmAtom {
 		{text: "(host = 'b' OR value = 5)", eval: func(p cmPoint) bool { return p.host == "b" || p.value == 5 }},
 		{text: "true", eval: func(p cmPoint) bool { return true }},
 		{text: "host::tag = 'a'", eval: func(p cmPoint) bool { return p.host == "a" }},
+		{text: "flag = true", eval: func(p cmPoint) bool { return p.value > 5 }},
+		{text: "(flag != true OR true = flag)", eval: func(p cmPoint) bool { return true }},
+		{text: "flag != true", eval: func(p cmPoint) bool { return !(p.value > 5) }},
 		{text: "(value::integer > 5 OR region::tag = 'x')", eval: func(p cmPoint) bool { return p.value > 5 || p.region == "x" }},
 	}
 }
